@@ -7,7 +7,7 @@ MENUS = {
         ('badtypes', ['tA', 'tB', 'tM', 'tA2', 'tA2_dup', 'tA2_dup2', 'tA1', 'tA_dupsym', 'ka', 'm_ka_ka'], 6),
         ('badunits', ['tA', 'tB', 'tAB', 'ka', 'a_dup', 'ka_dupB', 'empty', 'nonstr', 'xb_wrongtype', 'bad_dim',
                       'arity', 'wrongorder', 'onbase', 'kab'], 6),
-        ('badnoref', ['tA', 'tM', 'tMpA', 'p', 'p_dup', 'ppa', 'ppka', 'q'], 7),
+        ('badnoref', ['tA', 'tM', 'tMpA', 'tMpA_dup', 'p', 'p_dup', 'ppa', 'ppka', 'q'], 7),
         ('ghost', ['tA', 'tB', 'tAB', 'tA2', 'ka', 'cb', 'ha', 'kacb_dup', 'sq_dup', 'm_ka_cb', 'm_ha_ka'], 8),
     ],
     'thorough': [
